@@ -167,11 +167,22 @@ def gen_call(r):
         call["rule"] = rv
         call["data_given"] = r.chance(4, 5)
         call["data"] = dv
-        call["serializer"] = r.pick(["default", "default", "dumps", "compact"])
+        call["serializer"] = r.pick(["default", "default", "dumps", "compact", "utf8", "utf8"])
         call["deserializer"] = r.pick(["default", "default", "loads", "identity"])
     else:
-        rt = dumps(rv)
-        dt = dumps(dv)
+        # half of the hand-serialised texts carry their non-ASCII characters as raw UTF-8
+        if r.chance(1, 2):
+            try:
+                rt = json.dumps(rv, ensure_ascii=False)
+                dt = json.dumps(dv, ensure_ascii=False)
+                rt.encode("utf-8")
+                dt.encode("utf-8")
+            except UnicodeEncodeError:
+                rt = dumps(rv)
+                dt = dumps(dv)
+        else:
+            rt = dumps(rv)
+            dt = dumps(dv)
         if r.chance(1, 8):
             rt = bad_text(r, rt)
         if r.chance(1, 8):
@@ -278,7 +289,8 @@ def perform(mod, call, pool=None):
     kw = {}
     try:
         if call["entry"] == "apply":
-            ser = {"default": None, "dumps": json.dumps, "compact": lambda o: json.dumps(o, separators=(",", ":"))}[call["serializer"]]
+            ser = {"default": None, "dumps": json.dumps, "compact": lambda o: json.dumps(o, separators=(",", ":")),
+                   "utf8": lambda o: json.dumps(o, ensure_ascii=False)}[call["serializer"]]
             de = {"default": None, "loads": json.loads, "identity": lambda s: s}[call["deserializer"]]
             if ser is not None:
                 kw["serializer"] = ser
